@@ -7,8 +7,8 @@
    is compared with cl.NewPackage on every run; (3) one permutation-invariance lemma per shape of
    map-range loop that occurs in cl/*.go and x/build/*.go; (4) every such loop of the current
    source is in the reviewed list (obligation by computation over the regenerated table);
-   (5) the loop shapes whose order IS observable are refuted in the model — three sites, the three
-   known findings.  What is not proved: that the Recorder callbacks of the loops tagged KeyedEvents
+   (5) the three loops that were order dependent (initGopPkg, gmxCheckProjs, x/build loadPackage) are
+   sorted folds since their repair and have their positive theorem; no order-dependent site is left.  What is not proved: that the Recorder callbacks of the loops tagged KeyedEvents
    are order-insensitive (they are the user's), and that the reviewed tags describe the Go loop
    bodies correctly (reviewed by hand, pinned by the statement hash, explored by repetition). *)
 From Coq Require Import List NArith Bool Permutation Sorting.Sorted String.
@@ -104,24 +104,30 @@ Theorem C08_log_loop_perm_at_most_one :
     flat_map body l = flat_map body l'.
 Proof. exact @log_loop_perm_at_most_one. Qed.
 
-(* (5) the shapes of initGopPkg (several logging loads) and x/build loadPackage (first of a map):
-   the property is REFUTED in the model — known findings gofile-type-errors-order and
-   builddir-two-packages *)
-Theorem C08_initgoppkg_log_order_refuted :
-  exists (body : nat -> list nat) l l',
-    Permutation l l' /\ NoDup l /\ flat_map body l <> flat_map body l'.
-Proof. exact log_loop_refuted. Qed.
+(* (5) initGopPkg, gmxCheckProjs and x/build loadPackage (repaired in /repo): each now collects the
+   map keys, sorts them and works over the SORTED keys, so the iteration order of the map is
+   irrelevant whatever the per-key work does (an arbitrary logging body, first-writer-wins, first) *)
+Theorem C08_initgoppkg_sorted_log_perm :
+  forall (V E : Type) (body : str * V -> list E) (m m' : list (str * V)),
+    Permutation m m' -> NoDup (map fst m) -> log_loop body (sort_by_path m) = log_loop body (sort_by_path m').
+Proof. intros; apply log_loop_sorted_perm; assumption. Qed.
 
-Theorem C08_loadpackage_pick_any_refuted :
-  exists (m m' : list (nat * nat)),
-    Permutation m m' /\ NoDup (map fst m) /\ pick_any m <> pick_any m'.
-Proof. exact pick_any_refuted. Qed.
+Theorem C08_gmxcheckprojs_sorted_first_wins_perm :
+  forall (V : Type) (m m' : list (str * V)),
+    Permutation m m' -> NoDup (map fst m) -> first_wins (sort_by_path m) = first_wins (sort_by_path m').
+Proof. intros; apply first_wins_sorted_perm; assumption. Qed.
 
-(* gmxCheckProjs: `if ld.typ == nil { ld.typ = ... }` on a loader shared by two projects *)
-Theorem C08_gmxcheckprojs_first_wins_refuted :
-  exists (m m' : list (nat * nat)),
-    Permutation m m' /\ NoDup (map fst m) /\ first_wins m <> first_wins m'.
-Proof. exact first_wins_refuted. Qed.
+Theorem C08_loadpackage_sorted_pick_perm :
+  forall (V : Type) (m m' : list (str * V)),
+    Permutation m m' -> NoDup (map fst m) -> pick_any (sort_by_path m) = pick_any (sort_by_path m').
+Proof. intros; apply pick_any_sorted_perm; assumption. Qed.
+
+(* why the sorts matter (the three defects before the repair): the same loops over the map order *)
+Theorem C08_unsorted_map_loops_order_dependent :
+  (exists (body : nat -> list nat) l l', Permutation l l' /\ NoDup l /\ flat_map body l <> flat_map body l') /\
+  (exists (m m' : list (nat * nat)), Permutation m m' /\ NoDup (map fst m) /\ first_wins m <> first_wins m') /\
+  (exists (m m' : list (nat * nat)), Permutation m m' /\ NoDup (map fst m) /\ pick_any m <> pick_any m').
+Proof. exact (conj log_loop_refuted (conj first_wins_refuted pick_any_refuted)). Qed.
 
 Theorem C08_loadpackage_pick_any_singleton :
   forall (K V : Type) (m m' : list (K * V)),
@@ -133,9 +139,8 @@ Theorem C08_map_ranges_reviewed :
   forall g, In g map_ranges -> exists r, In r reviewed /\ site_eqb g r = true.
 Proof. exact map_ranges_reviewed_spec. Qed.
 
-Theorem C08_order_dependent_sites_are_the_known_findings :
-  order_dependent_sites =
-    ["projs-default-class-collision"; "gofile-type-errors-order"; "builddir-two-packages"]%string.
+Theorem C08_no_order_dependent_site_left :
+  order_dependent_sites = []%string.
 Proof. exact order_dependent_are_listed. Qed.
 
 (* ---- non-vacuity ---- *)
@@ -187,9 +192,10 @@ Print Assumptions C08_typeswitch_seen_perm.
 Print Assumptions C08_typeswitch_duplicate_reported.
 Print Assumptions C08_typeswitch_pointer_identity_misses.
 Print Assumptions C08_log_loop_perm_at_most_one.
-Print Assumptions C08_initgoppkg_log_order_refuted.
-Print Assumptions C08_loadpackage_pick_any_refuted.
-Print Assumptions C08_gmxcheckprojs_first_wins_refuted.
+Print Assumptions C08_initgoppkg_sorted_log_perm.
+Print Assumptions C08_gmxcheckprojs_sorted_first_wins_perm.
+Print Assumptions C08_loadpackage_sorted_pick_perm.
+Print Assumptions C08_unsorted_map_loops_order_dependent.
 Print Assumptions C08_loadpackage_pick_any_singleton.
 Print Assumptions C08_map_ranges_reviewed.
-Print Assumptions C08_order_dependent_sites_are_the_known_findings.
+Print Assumptions C08_no_order_dependent_site_left.
